@@ -17,6 +17,7 @@ pub mod c01;
 pub mod c02;
 pub mod c04;
 pub mod c07;
+pub mod c08;
 
 pub fn all() -> Vec<Prop> {
     vec![
@@ -27,5 +28,8 @@ pub fn all() -> Vec<Prop> {
         c04::prop_c05(),
         c04::prop_c06(),
         c07::prop(),
+        c08::prop_c08(),
+        c08::prop_c13(),
+        c08::prop_c14(),
     ]
 }
